@@ -173,4 +173,18 @@ func init() {
 			"A-os: rename is atomic; a crash happens between library calls. The full crash invariant (for every instant, original or backup or complete output exists) needs a ghost file system relating path strings and contents and is NOT established; real system-call granularity and multi-task runs are not decided",
 		},
 	})
+	registerProp(&PropSpec{
+		ID:     "C13",
+		Custom: []string{"partial", "fscan"},
+		Partial: []string{
+			modPath + "/json.(*Minifier).Minify", modPath + "/xml.(*Minifier).Minify", modPath + "/svg.(*Minifier).Minify",
+			modPath + "/css.(*Minifier).Minify", modPath + "/html.(*Minifier).Minify", modPath + "/js.(*Minifier).Minify",
+		},
+		Units: []string{modPath + ".(*M).MinifyMimetype", modPath + ".(*M).Match", modPath + ".(*M).Minify"},
+		Notes: []string{
+			"sequential premise of the standard argument 'no shared location is written after registration => every interleaving equals the sequential run': (1) frame.store obligations (always claimed): no store in any of the six (*Minifier).Minify methods targets the option struct passed in by the user (css/svg/html prove it through their local copy; F7 in html found and fixed); (2) F obligations decided by the generator's may-write analysis: no function of the seven packages stores to a package-level variable outside init(), none iterates over a map on an output path (allow-list: newRenamer builds a set); (3) lock discipline from the registry contracts (C15): MinifyMimetype/Match take the read lock only, released on every exit",
+			"data-race freedom over all interleavings, races inside dependencies, GOMAXPROCS effects and cross-process determinism are NOT decided (no concurrency logic in this technique)",
+			"A-globals: package-level []byte(\"...\") append bases have cap == len, so append never writes through them",
+		},
+	})
 }
